@@ -6,6 +6,8 @@ import NgoVerif.Model.Options
 import NgoVerif.Model.Api
 import NgoVerif.DriverCleanup
 import NgoVerif.DriverBinding
+import NgoVerif.DriverNormalize
+import NgoVerif.DriverSumAgg
 /-!
 # Line-protocol driver: one s-expression request per line on stdin, one s-expression answer per line on stdout.
 
@@ -52,7 +54,7 @@ def runMakeUnique (u : UniqueVars) : List Sexp → List String → Option (List 
   | _, _ => none
 
 /-- handlers contributed by the per-pass driver files; tried in order -/
-def extHandlers : List (Sexp → Option Sexp) := [handleCleanup, handleBinding]
+def extHandlers : List (Sexp → Option Sexp) := [handleCleanup, handleBinding, handleNormalize, handleSumAgg]
 
 def tryExt (req : Sexp) : List (Sexp → Option Sexp) → Sexp
   | [] => unsupported "unknown op"
